@@ -226,6 +226,8 @@ RULES += [
     ('1040_s8812', '6', Y22, lambda c: _count(c, 'odc'), 'Schedule 8812 line 6: number of other dependents (the box in column (4) of the Dependents section)'),
     ('nc_d-400', '10a', ALL, lambda c: c.x('nc_d-400_child_deduction_wkst.3'), NC + ' line 10a: number of qualifying children from the child deduction worksheet'),
     ('nc_d-400', '18', ALL, lambda c: c.x('nc_d-400_consumer_use_tax_wkst.consumer_use_tax'), NC + ' line 18: consumer use tax from the worksheet'),
+    ('nc_d-400_consumer_use_tax_wkst', 'estimate', (2021, 2023), lambda c: _st.nc_use_tax_estimate(c.x('nc_d-400.14')),
+     NC + ' use tax table: taxable income (line 14) "at least" the lower limit "but less than" the upper one; 0.0675 % from 45,200'),
     ('nc_d-400_child_deduction_wkst', '3', ALL, lambda c: _count(c, 'ctc'), NC + ' child deduction worksheet line 3: number of children for whom the federal child tax credit is allowed'),
 ]
 
@@ -239,6 +241,8 @@ def _sb_part3(c):
 
 SB3 = 'Schedule B, Part III: "You must complete this part if you (a) had over $1,500 of taxable interest or ordinary dividends; ..."'
 REQUIRED = [
+    ('1040', W + '.25', ALL, lambda c: c.v('3a') > 0.001 or c.v('7') > 0.001,
+     I1040 + ' 16: with qualified dividends (line 3a) or capital gain distributions (line 7) the tax is figured on the Qualified Dividends and Capital Gain Tax Worksheet'),
     ('1040_sb', '7a', ALL, _sb_part3, SB3), ('1040_sb', '7b', ALL, _sb_part3, SB3), ('1040_sb', '8', ALL, _sb_part3, SB3),
     ('8606', '15b', ALL, lambda c: c.has(f'{c.full}.15a'), 'Form 8606 Part I: line 15b is completed whenever line 15a is (line 15c = 15a - 15b)'),
     ('8606', '15c', ALL, lambda c: c.has(f'{c.full}.15a'), 'Form 8606 Part I: line 15c is completed whenever line 15a is'),
